@@ -768,6 +768,66 @@ func DispatchShapeIn(p *load.Program, prel, vrel string) *report.RuleResult {
 // configured version is only copied and compared, through comparison methods
 // whose other operand is a constant; each such test must be constant on every
 // cell of the property's partition of supported versions.
+// versionCondByEval: the boolean expression that encloses a use of the configured version, evaluated from source
+// (package ceval: pkg/version's methods and the package's variables interpreted) for every supported version; it
+// must be constant on each cell of the property's partition. decided=false: outside the evaluator's vocabulary.
+func versionCondByEval(p *load.Program, q *packages.Package, fd *ast.FuncDecl, stack []ast.Node) (bad string, what string, decided bool) {
+	vk := p.Pkg("pkg/version")
+	if vk == nil || fd.Recv == nil || len(fd.Recv.List) != 1 || len(fd.Recv.List[0].Names) != 1 {
+		return "", "", false
+	}
+	var cond ast.Expr
+	for i := len(stack) - 1; i >= 0; i-- {
+		if e, ok := stack[i].(ast.Expr); ok {
+			if b, ok := q.TypesInfo.TypeOf(e).Underlying().(*types.Basic); ok && b.Info()&types.IsBoolean != 0 {
+				cond = e
+				break
+			}
+		}
+	}
+	if cond == nil {
+		return "", "", false
+	}
+	recvObj := q.TypesInfo.Defs[fd.Recv.List[0].Names[0]]
+	rt := recvObj.Type()
+	if pt, ok := rt.Underlying().(*types.Pointer); ok {
+		rt = pt.Elem()
+	}
+	st, ok := rt.Underlying().(*types.Struct)
+	if !ok {
+		return "", "", false
+	}
+	in := ceval.New(q, vk)
+	eval := func(v ver) (bool, bool) {
+		fields := map[string]interface{}{}
+		for i := 0; i < st.NumFields(); i++ {
+			if isVersionPtr(st.Field(i).Type()) {
+				fields[st.Field(i).Name()] = &ceval.Struct{Type: "Version", Fields: map[string]interface{}{"Major": int64(v.maj), "Minor": int64(v.min)}}
+			}
+		}
+		r, status, _ := in.Eval(cond, q.TypesInfo, map[types.Object]interface{}{recvObj: &ceval.Struct{Type: "recv", Fields: fields}})
+		b, isBool := r.(bool)
+		return b, status == ceval.OK && isBool
+	}
+	what = types.ExprString(cond)
+	for _, cell := range oracleCells {
+		first, ok := eval(cell[0])
+		if !ok {
+			return "", what, false
+		}
+		for _, v := range cell[1:] {
+			got, ok := eval(v)
+			if !ok {
+				return "", what, false
+			}
+			if got != first && bad == "" {
+				bad = fmt.Sprintf("`%s` distinguishes %s from %s, which the property requires to behave identically (only the 7.3 heredoc change may split a family)", what, cell[0], v)
+			}
+		}
+	}
+	return bad, what, true
+}
+
 func VersionFlow(p *load.Program) *report.RuleResult {
 	res := report.NewResult("version-flow")
 	vk := p.Pkg("pkg/version")
@@ -873,6 +933,11 @@ func VersionFlow(p *load.Program) *report.RuleResult {
 					want := cmpWant[pn.Sel.Name]
 					if call == nil || want == nil || len(call.Args) != 1 {
 						res.Count("uses", 1)
+						if bad, what, ok := versionCondByEval(p, q, fd, stack); ok {
+							res.Count("comparisons", 1)
+							res.Check(bad == "", key+"/"+pn.Sel.Name, pos, fname, "evaluated for every supported version: `"+what+"` is constant on each of {5.0-5.6}, {7.0-7.2}, {7.3,7.4}", bad)
+							return true
+						}
 						res.Unknown(key+"/"+pn.Sel.Name, pos, fname, "undecided:idiom: version used through "+pn.Sel.Name+", not a comparison with a constant")
 						return true
 					}
@@ -889,6 +954,11 @@ func VersionFlow(p *load.Program) *report.RuleResult {
 					var cv ver
 					if n, _ := fmt.Sscanf(cs, "%d.%d", &cv.maj, &cv.min); n != 2 {
 						res.Count("uses", 1)
+						if bad, what, ok := versionCondByEval(p, q, fd, stack); ok {
+							res.Count("comparisons", 1)
+							res.Check(bad == "", key+"/"+pn.Sel.Name, pos, fname, "evaluated for every supported version: `"+what+"` is constant on each of {5.0-5.6}, {7.0-7.2}, {7.3,7.4}", bad)
+							return true
+						}
 						res.Unknown(key+"/"+pn.Sel.Name, pos, fname, "undecided:idiom: comparison operand is not version.New(<constant>)")
 						return true
 					}
@@ -911,6 +981,9 @@ func VersionFlow(p *load.Program) *report.RuleResult {
 						res.OK(key+"/arg", pos, fname, "constant version passed as comparison operand")
 					} else if gv, nm, ok := globalVer(q, e); ok {
 						res.OK(key+"/arg", pos, fname, fmt.Sprintf("package-level constant version %s = %s passed as comparison operand", nm, gv))
+					} else if bad, what, ok := versionCondByEval(p, q, fd, stack); ok {
+						res.Count("comparisons", 1)
+						res.Check(bad == "", key+"/arg", pos, fname, "evaluated for every supported version: `"+what+"` is constant on each of {5.0-5.6}, {7.0-7.2}, {7.3,7.4}", bad)
 					} else {
 						res.Unknown(key+"/arg", pos, fname, "undecided:idiom: version passed to a call")
 					}
@@ -924,4 +997,14 @@ func VersionFlow(p *load.Program) *report.RuleResult {
 		}
 	}
 	return res
+}
+
+
+func isVersionPtr(t types.Type) bool {
+	pt, ok := t.Underlying().(*types.Pointer)
+	if !ok {
+		return false
+	}
+	n, ok := pt.Elem().(*types.Named)
+	return ok && n.Obj().Name() == "Version" && n.Obj().Pkg() != nil && strings.HasSuffix(n.Obj().Pkg().Path(), "pkg/version")
 }
